@@ -302,6 +302,10 @@ def parallel_add(
         raise ValueError("You forgot to provide any sketch arguments")
     if n_workers is None:
         n_workers = max(1, psutil.cpu_count(logical=False))
+    # The queue is filled by a spawned process, so `items` has to be picklable. A
+    # generator is not, materialize it
+    if not isinstance(items, (list, tuple)):
+        items = list(items)
 
     ctx = get_context("spawn")
     queue = ctx.Queue(3 * n_workers)
